@@ -615,6 +615,29 @@ def cases(rng, tier):
         core = "0123456789." if fam == 4 else "0123456789abcdef::."
         t = "".join(rng.choice(core if rng.random() < 0.9 else alpha) for _ in range(rng.randint(0, 24)))
         yield from string_cases(rng, t, fam, False)
+    # valid-biased long / mixed IPv6 spellings: every hextet count before a dotted tail, padded and upper-case
+    # hextets, maximal-length forms (45 characters), '::' at every position
+    for _ in range(400 if quick else 20000):
+        n = rng.choice([6, 6, 6, 8, 8, rng.randint(0, 5)])
+        hx = []
+        for _ in range(n):
+            w = rng.choice([0, 1, 0xffff, 0xfff, 0xabcd, rng.getrandbits(16)])
+            hx.append(rng.choice(["%x", "%04x", "%X", "%04X", "%x"]) % w)
+        tail = ""
+        if n <= 6 and rng.random() < 0.8:
+            tail = ".".join(str(rng.choice([0, 1, 9, 10, 99, 100, 255, 255, rng.randrange(256)])) for _ in range(4))
+        groups = hx + ([tail] if tail else [])
+        full = 8 if not tail else 7
+        if len(groups) < full or rng.random() < 0.1:
+            i = rng.randrange(len(groups) + 1)
+            t = ":".join(groups[:i]) + "::" + ":".join(groups[i:])
+        else:
+            t = ":".join(groups)
+        yield from string_cases(rng, t, 6, False)
+    for t in ("ffff:ffff:ffff:ffff:ffff:ffff:255.255.255.255", "FFFF:FFFF:FFFF:FFFF:FFFF:FFFF:255.255.255.255",
+              "ffff:ffff:ffff:ffff:ffff:ffff:ffff:ffff", "0000:0000:0000:0000:0000:0000:000.000.000.000",
+              "0000:0000:0000:0000:0000:ffff:255.255.255.255", "1111:2222:3333:4444:5555:6666:123.123.123.123"):
+        yield from string_cases(rng, t, 6, True)
     # structured BSD shorthand and zero-padded quads (valid-biased)
     for _ in range(1500 if quick else 60000):
         n = rng.randint(1, 4)
